@@ -7,7 +7,6 @@ import (
 	"fmt"
 	"runtime"
 	"strings"
-	"sync"
 	"sync/atomic"
 
 	"verif/simrt"
@@ -48,6 +47,7 @@ type Result struct {
 	SimTime    int64             `json:"sim_time"`
 	Tasks      int               `json:"tasks"`
 	Dead       bool              `json:"dead,omitempty"`
+	Leaked     bool              `json:"leaked,omitempty"` // goroutines of the library were left blocked: the process must end
 	Counters   map[string]int64  `json:"counters,omitempty"`
 	Violations []simrt.Violation `json:"violations,omitempty"`
 	Note       []string          `json:"note,omitempty"`
@@ -101,15 +101,17 @@ func RunOne(seed uint64, explicit []uint64, build Build, wantTrace, wantTape boo
 		build(w)
 	}()
 	n := len(w.fns)
-	var wg sync.WaitGroup
+	// started / exited: real atomics, so that the main goroutine's reads
+	// after the run are ordered after everything a finished task wrote
+	var started, exited int64
 	// goroutines the library starts itself (go statements, rewritten to
 	// simrt.Go) join the run as additional tasks
 	simrt.SpawnHook = func(id int, fn func()) {
 		name := fmt.Sprintf("go%d", id)
 		addName(w, id, name)
-		wg.Add(1)
+		atomic.AddInt64(&started, 1)
 		go func() {
-			defer wg.Done()
+			defer atomic.AddInt64(&exited, 1)
 			simrt.TaskEnter(id)
 			defer simrt.TaskExit(id)
 			defer recoverTask(name)
@@ -118,9 +120,9 @@ func RunOne(seed uint64, explicit []uint64, build Build, wantTrace, wantTape boo
 	}
 	simrt.Begin(n)
 	for i := 0; i < n; i++ {
-		wg.Add(1)
+		atomic.AddInt64(&started, 1)
 		go func(id int) {
-			defer wg.Done()
+			defer atomic.AddInt64(&exited, 1)
 			simrt.TaskEnter(id)
 			defer simrt.TaskExit(id)
 			defer recoverTask(w.names[id])
@@ -139,8 +141,10 @@ func RunOne(seed uint64, explicit []uint64, build Build, wantTrace, wantTape boo
 		}
 		simrt.Report("hang:real-deadlock|"+where, "a task is blocked for ever in "+where+" (every other task has finished or waits for it)")
 		w.Finish = nil
-	} else {
-		wg.Wait()
+	}
+	// wait for every task that can finish (abandoned goroutines never do)
+	for atomic.LoadInt64(&exited) < atomic.LoadInt64(&started)-int64(simrt.Abandoned()) {
+		runtime.Gosched()
 	}
 	for _, f := range w.Finish {
 		func() {
@@ -157,6 +161,7 @@ func RunOne(seed uint64, explicit []uint64, build Build, wantTrace, wantTape boo
 		Seed: seed, Hash: simrt.TraceHash(), Steps: st.Steps, Switches: st.Switches,
 		Preempts: st.Preempts, TapeLen: st.TapeLen, Policy: st.Policy, SimTime: st.SimTime,
 		Tasks: n, Dead: st.Dead, Note: w.Note,
+		Leaked: simrt.Leaked() || simrt.RealDeadlock(),
 	}
 	names := simrt.CounterNames()
 	for i, nm := range names {
